@@ -161,7 +161,8 @@ def crash_writer(rng, w, workdir, power=True):
     return desc
 
 
-def make_state(rng, workdir, kind, nfaults=None, world_kw=None, fault_classes=None, faults=None):
+def make_state(rng, workdir, kind, nfaults=None, world_kw=None, fault_classes=None, faults=None, fault_gen=None,
+               reseal_p=0.4):
     """Build a world and drive it into the requested state.  Returns dict with img, cfg, kind, details,
     faults (list) -- or None if the configuration was rejected."""
     kw = dict(world_kw or {})
@@ -189,7 +190,18 @@ def make_state(rng, workdir, kind, nfaults=None, world_kw=None, fault_classes=No
             return st
         data = open(w["img"], "rb").read()
         n = nfaults if nfaults is not None else rng.weighted([(1, 6), (2, 3), (3, 1), (4, 1)])
-        meta = minifs.metadata_blocks_via_e2image(w["img"], workdir, run_sim, Plan, tool) if rng.chance(0.7) else ()
-        st["faults"] = minifs.gen_faults(rng, data, n, extra_meta_blocks=meta, classes=fault_classes)
+        gen = rng.weighted([("struct", 6), ("mini", 4)]) if fault_gen is None else fault_gen
+        if gen == "struct":
+            # addressed through the independent reader: extent headers/entries, dirents, htree nodes, xattr
+            # entries ..., with or without the covering checksum re-sealed
+            try:
+                import reffaults
+                st["faults"], _desc = reffaults.gen_struct_faults(rng, data, n, reseal_p=reseal_p, kinds=fault_classes)
+            except Exception as ex:
+                st["details"]["struct_faults_error"] = repr(ex)
+                st["faults"] = []
+        if gen != "struct" or not st["faults"]:
+            meta = minifs.metadata_blocks_via_e2image(w["img"], workdir, run_sim, Plan, tool) if rng.chance(0.7) else ()
+            st["faults"] = minifs.gen_faults(rng, data, n, extra_meta_blocks=meta, classes=None if gen == "struct" else fault_classes)
         minifs.apply_faults(w["img"], st["faults"])
     return st
